@@ -11,6 +11,7 @@ import (
 	"go/types"
 
 	"golang.org/x/tools/go/types/typeutil"
+	"honnef.co/go/tools/internal/verifhook"
 	"honnef.co/go/tools/internal/xtools-internal/typesinternal"
 )
 
@@ -78,6 +79,7 @@ func (prog *Program) MethodValue(sel *types.Selection) *Function {
 		return fn
 	}()
 
+	verifhook.Point("ir.methodvalue.created")
 	b.iterate()
 
 	return m
